@@ -500,6 +500,11 @@ func (r *Run) finish() {
 
 // Fatalf reports a harness error (exit 2): the check could not run.
 func Fatalf(format string, a ...interface{}) {
+	if isWorker() {
+		// the parent reads the worker's stderr tail when it dies
+		fmt.Fprintf(os.Stderr, "fatal error: HARNESS-ERROR "+format+"\n", a...)
+		os.Exit(2)
+	}
 	fmt.Printf("HARNESS-ERROR "+format+"\n", a...)
 	os.Exit(2)
 }
